@@ -226,6 +226,10 @@ class FnTr:
                         and len(st.args) == 1 and self.vkey(st.func.value) is not None:
                     self.bind(st.func.value, ("set", self.etype(st.args[0])))
                 elif isinstance(st, ast.Call) and isinstance(st.func, ast.Attribute) and st.func.attr == "append" \
+                        and len(st.args) == 1 and isinstance(st.func.value, ast.Subscript) \
+                        and self.vkey(st.func.value.value) is not None:
+                    self.bind(st.func.value.value, ("list", ("list", self.etype(st.args[0]))))
+                elif isinstance(st, ast.Call) and isinstance(st.func, ast.Attribute) and st.func.attr == "append" \
                         and len(st.args) == 1 and self.vkey(st.func.value) is not None:
                     self.bind(st.func.value, ("list", self.etype(st.args[0])))
                 elif isinstance(st, ast.For):
@@ -325,6 +329,10 @@ class FnTr:
                     and e.attr == "maxsize":
                 return "Int"
             return None
+        if isinstance(e, ast.BinOp) and isinstance(e.op, ast.Add):
+            tl = self.etype(e.left)
+            if tl is not None and not isinstance(tl, str) and tl[0] == "list":
+                return ty_join(tl, self.etype(e.right))
         if isinstance(e, ast.BinOp):
             t = "Int"
             for x in (e.left, e.right):
@@ -338,6 +346,22 @@ class FnTr:
             return t
         if isinstance(e, ast.UnaryOp):
             return "Bool" if isinstance(e.op, ast.Not) else self.etype(e.operand)
+        if isinstance(e, ast.Call) and isinstance(e.func, ast.Name) and e.func.id == "Table" and not e.args:
+            return ("list", None)
+        if isinstance(e, ast.ListComp):
+            old_t = {}
+            for g in e.generators:
+                if isinstance(g.target, ast.Name) and g.target.id != "_":
+                    old_t[g.target.id] = self.vtypes.get(g.target.id)
+                    self.vtypes[g.target.id] = "Int"
+            t = self.etype(e.elt)
+            return ("list", t)
+        if isinstance(e, ast.Call) and isinstance(e.func, ast.Name) and e.func.id in ("min", "max") and len(e.args) == 1:
+            lt = self.etype(e.args[0])
+            return lt[1] if lt is not None and not isinstance(lt, str) and lt[0] == "list" else None
+        if isinstance(e, ast.BinOp) and isinstance(e.op, ast.Add) and not isinstance(self.etype(e.left), str) \
+                and self.etype(e.left) is not None and self.etype(e.left)[0] == "list":
+            return ty_join(self.etype(e.left), self.etype(e.right))
         if isinstance(e, ast.Call) and ast.unparse(e.func) == "math.factorial":
             return "Int"
         if isinstance(e, ast.Call) and ast.unparse(e.func) == "float" and len(e.args) == 1 \
@@ -459,7 +483,7 @@ class FnTr:
                     and e.attr == "maxsize":
                 return "(9223372036854775807 : Int)"
             raise Unsupported("name %s" % ast.dump(e))
-        if isinstance(e, ast.BinOp) and self.etype(e) in ("Rat", "ER"):
+        if isinstance(e, ast.BinOp) and isinstance(self.etype(e), str) and self.etype(e) in ("Rat", "ER"):
             T = self.etype(e)
             a, b = self.num_as(e.left, T), self.num_as(e.right, T)
             if isinstance(e.op, ast.Add):
@@ -471,6 +495,35 @@ class FnTr:
             if isinstance(e.op, ast.Div) and T == "Rat":
                 return "(← ratDiv %s %s)" % (a, b)
             raise Unsupported("operator %s on %s" % (type(e.op).__name__, T))
+        if isinstance(e, ast.Call) and isinstance(e.func, ast.Name) and e.func.id == "Table" and not e.args:
+            return "[]"
+        if isinstance(e, ast.ListComp):
+            if len(e.generators) != 1 or e.generators[0].ifs:
+                raise Unsupported("list comprehension with several generators / conditions")
+            g = e.generators[0]
+            it = g.iter
+            if not (isinstance(g.target, ast.Name) and isinstance(it, ast.Call) and isinstance(it.func, ast.Name)
+                    and it.func.id == "range" and len(it.args) in (1, 2)):
+                raise Unsupported("list comprehension over something else than range")
+            a = "(0 : Int)" if len(it.args) == 1 else self.expr(it.args[0], "num")
+            b = self.expr(it.args[-1], "num")
+            if g.target.id == "_":
+                return "(List.replicate (%s - %s).toNat %s)" % (b, a, self.expr(e.elt))
+            self.vtypes.setdefault(g.target.id, "Int")
+            et = self.etype(e.elt)
+            body = self.num_as(e.elt, et) if isnum(et) else self.expr(e.elt)
+            return "(← (pyRange %s %s).mapM (fun %s => do pure %s))" % (a, b, self.vn(g.target.id), body)
+        if isinstance(e, ast.Call) and isinstance(e.func, ast.Name) and e.func.id in ("min", "max") and len(e.args) == 1:
+            return "(← py%s %s)" % (e.func.id.capitalize(), self.expr(e.args[0]))
+        if isinstance(e, ast.BinOp) and isinstance(e.op, ast.Add) and self.etype(e.left) is not None \
+                and not isinstance(self.etype(e.left), str) and self.etype(e.left)[0] == "list":
+            T = self.etype(e)
+            def as_list(x):
+                tx = self.etype(x)
+                if isinstance(x, ast.List) and isnum(T[1]):
+                    return "[" + ", ".join(self.num_as(z, T[1]) for z in x.elts) + "]"
+                return self.expr(x)
+            return "(%s ++ %s)" % (as_list(e.left), as_list(e.right))
         if isinstance(e, ast.Call) and ast.unparse(e.func) == "math.factorial" and len(e.args) == 1:
             return "(← pyFactorial %s)" % self.expr(e.args[0], "num")
         if isinstance(e, ast.Call) and ast.unparse(e.func) == "float" and len(e.args) == 1 \
@@ -620,6 +673,10 @@ class FnTr:
             if isinstance(x, ast.BinOp) and isinstance(x.op, (ast.FloorDiv, ast.Mod, ast.Div)):
                 return True
             if isinstance(x, ast.Call) and ast.unparse(x.func) == "math.factorial":
+                return True
+            if isinstance(x, ast.ListComp):
+                return True
+            if isinstance(x, ast.Call) and isinstance(x.func, ast.Name) and x.func.id in ("min", "max") and len(x.args) == 1:
                 return True
             if isinstance(x, ast.Call) and isinstance(x.func, ast.Name) and (
                     x.func.id == self.pname or x.func.id in self.ctx.fns or x.func.id in self.oracles):
@@ -983,6 +1040,23 @@ class FnTr:
                 self.emit_yield(st.value.value, ind, out)
                 continue
             if isinstance(st, ast.Expr) and isinstance(st.value, ast.Call) and isinstance(st.value.func, ast.Attribute) \
+                    and st.value.func.attr == "append" and isinstance(st.value.func.value, ast.Subscript) \
+                    and self.vkey(st.value.func.value.value) in self.vtypes and len(st.value.args) == 1:
+                # X[i].append(v)
+                arr = self.vkey(st.value.func.value.value)
+                at = self.vtypes.get(arr)
+                if self.is_opt(at):
+                    raise Unsupported("append into an optional table")
+                et = at[1][1] if at is not None and not isinstance(at, str) and at[0] == "list" and at[1] is not None \
+                    and not isinstance(at[1], str) and at[1][0] == "list" else None
+                v = self.num_as(st.value.args[0], et) if isnum(et) else self.expr(st.value.args[0])
+                ix = self.expr(st.value.func.value.slice, "num")
+                tmp = "app_%d" % self.fresh()
+                out.append("%slet %s := %s" % (ind, tmp, v))
+                out.append("%s%s := (← pySetAt %s %s ((← pyIndex %s %s) ++ [%s]))" % (
+                    ind, self.vn(arr), self.vn(arr), ix, self.vn(arr), ix, tmp))
+                continue
+            if isinstance(st, ast.Expr) and isinstance(st.value, ast.Call) and isinstance(st.value.func, ast.Attribute) \
                     and self.vkey(st.value.func.value) in self.vtypes and st.value.func.attr in ("append", "pop"):
                 k = self.vkey(st.value.func.value)
                 if k not in defined:
@@ -990,7 +1064,10 @@ class FnTr:
                 if self.is_set(self.vtypes.get(k)):
                     raise Unsupported("list method on a set")
                 if st.value.func.attr == "append" and len(st.value.args) == 1:
-                    out.append("%s%s := %s ++ [%s]" % (ind, self.vn(k), self.vn(k), self.expr(st.value.args[0])))
+                    lt = self.vtypes.get(k)
+                    et = lt[1] if lt is not None and not isinstance(lt, str) and lt[0] == "list" else None
+                    v = self.num_as(st.value.args[0], et) if isnum(et) else self.expr(st.value.args[0])
+                    out.append("%s%s := %s ++ [%s]" % (ind, self.vn(k), self.vn(k), v))
                 elif st.value.func.attr == "pop" and not st.value.args:
                     out.append("%s%s := (← pyPop %s)" % (ind, self.vn(k), self.vn(k)))
                 else:
@@ -1330,7 +1407,7 @@ class FnTr:
         for x in ast.walk(st):   # lists changed by append / pop
             if isinstance(x, ast.Call) and isinstance(x.func, ast.Attribute) and \
                     x.func.attr in ("append", "pop", "add", "remove", "discard"):
-                k = self.vkey(x.func.value)
+                k = self.vkey(x.func.value.value if isinstance(x.func.value, ast.Subscript) else x.func.value)
                 if k in self.vtypes and k not in assigned:
                     assigned.append(k)
         for fn in self.local_fns.values():   # and by inlined local functions
@@ -1495,14 +1572,50 @@ def prune_constants(fn, env):
         class T(ast.NodeTransformer):
             def visit_Compare(s2, node):
                 s2.generic_visit(node)
+                if ast.unparse(node) == "__name__ == '__main__'":
+                    return ast.copy_location(ast.Constant(value=False), node)
                 if isinstance(node.left, ast.Name) and node.left.id in env and env[node.left.id] is None \
                         and len(node.ops) == 1 and isinstance(node.comparators[0], ast.Constant) \
                         and node.comparators[0].value is None and isinstance(node.ops[0], (ast.Is, ast.IsNot)):
                     return ast.copy_location(ast.Constant(value=isinstance(node.ops[0], ast.Is)), node)
                 return node
 
+            def visit_Name(s2, node):
+                if isinstance(node.ctx, ast.Load) and isinstance(env.get(node.id, 0), bool):
+                    return ast.copy_location(ast.Constant(value=env[node.id]), node)
+                return node
+
+            def visit_UnaryOp(s2, node):
+                s2.generic_visit(node)
+                if isinstance(node.op, ast.Not) and isinstance(node.operand, ast.Constant) \
+                        and isinstance(node.operand.value, bool):
+                    return ast.copy_location(ast.Constant(value=not node.operand.value), node)
+                return node
+
+            def visit_BoolOp(s2, node):
+                s2.generic_visit(node)
+                isand = isinstance(node.op, ast.And)
+                vals = []
+                for v in node.values:
+                    if isinstance(v, ast.Constant) and isinstance(v.value, bool):
+                        if v.value != isand:      # False in an `and`, True in an `or`: decides the whole
+                            return ast.copy_location(ast.Constant(value=v.value), node)
+                        continue                   # neutral element
+                    vals.append(v)
+                if not vals:
+                    return ast.copy_location(ast.Constant(value=isand), node)
+                if len(vals) == 1:
+                    return vals[0]
+                node.values = vals
+                return node
+
             def visit_If(s2, node):
                 s2.generic_visit(node)
+                if isinstance(node.test, ast.Name) and isinstance(env.get(node.test.id, 0), bool):
+                    node.test = ast.copy_location(ast.Constant(value=env[node.test.id]), node.test)
+                if isinstance(node.test, ast.UnaryOp) and isinstance(node.test.op, ast.Not) and \
+                        isinstance(node.test.operand, ast.Name) and isinstance(env.get(node.test.operand.id, 0), bool):
+                    node.test = ast.copy_location(ast.Constant(value=not env[node.test.operand.id]), node.test)
                 if isinstance(node.test, ast.Constant) and isinstance(node.test.value, bool):
                     return node.body if node.test.value else (node.orelse or [ast.copy_location(ast.Pass(), node)])
                 return node
@@ -1598,6 +1711,12 @@ FUNCTIONS = [
     ("hrevolve_sequences/basic_functions.py", "argmin", "argmin", {"list": ("list", "Int")}, {}),
     ("mixed.py", "mixed_steps_tabulation", "mixed_steps_tabulation", {}, {}),
     ("hrevolve_sequences/basic_functions.py", "beta", "beta", {}, {}),
+    ("hrevolve_sequences/revolve.py", "get_opt_0_table", "get_opt_0_table", {"uf": "Rat", "ub": "Rat"},
+     {"consts": {"print_table": None}, "drop_params": ["print_table"]}),
+    ("hrevolve_sequences/disk_revolve.py", "get_opt_inf_table", "get_opt_inf_table",
+     {"uf": "Rat", "ub": "Rat", "rd": "Rat", "wd": "Rat", "opt_0": ("opt", ("list", ("list", "Rat")))},
+     {"consts": {"print_table": None, "one_read_disk": True, "opt_1d": None},
+      "drop_params": ["print_table", "one_read_disk", "opt_1d"]}),
     ("hrevolve_sequences/periodic_disk_revolve.py", "mxrr_close_formula", "mxrr_close_formula",
      {"uf": "Rat", "rd": "Rat", "wd": "Rat"}, {}),
     ("hrevolve.py", "_convert_action", "convert_action", {"action": ("struct", "PyOp")}, {"split_dict_keys": True}),
@@ -1750,6 +1869,10 @@ def generate(repo):
                 raise Unsupported("*args/**kwargs")
             if opts.get("split_dict_keys"):
                 node = split_dict_keys(node)
+            if opts.get("consts"):
+                node = prune_constants(node, opts["consts"])
+                drop = set(opts.get("drop_params", []))
+                node.args.args = [a for a in node.args.args if a.arg not in drop]
             tr = FnTr(ctx, node, qual.split(".")[-1], lean, ptypes, bool(opts.get("recursive")),
                       cache_step=has_cache, src="%s:%d-%d" % (f, node.lineno, node.end_lineno))
             text, fuel = tr.emit()
